@@ -213,14 +213,18 @@ class Machine:
             self.fail("attrs", "exception", f"{where}: {type(exc).__name__} {exc}")
         # queries
         sample = L[0]
-        nodes = list(bk)
+        # query nodes as the library sees them: the knot elements themselves, and midpoints in the
+        # vector's number type; expectations are computed from exactly those values
+        libnodes = []
+        for z in bk:
+            libnodes.append(L[U.index(z)])
         for lo, hi in zip(bk[:-1], bk[1:]):
-            m = oracle.frac(lib_value((lo + hi) / 2, sample))
-            if lo < m < hi:
-                nodes.append(m)
+            m = lib_value((lo + hi) / 2, sample)
+            if lo < oracle.frac(m) < hi:
+                libnodes.append(m)
+        nodes = [oracle.frac(x) for x in libnodes]
         good = []
-        for u in nodes:
-            lu = lib_value(u, sample)
+        for lu, u in zip(libnodes, nodes):
             good.append(lu)
             try:
                 sp, mu, va = kv.span(lu), kv.mult(lu), kv.valid(lu)
